@@ -98,9 +98,14 @@ def churn(draw):
     p = lambda ttl, sp, fl=False: {'k': 'PTR', 'type': ti, 'inst': ii, 'sp': sp, 'ttl': ttl, 'flush': fl}
     ttl1 = draw(st.sampled_from([1, 1125, 4500]))
     ops = [['resp', [p(ttl1, draw(st.integers(0, 1)))]], ['tick', draw(st.sampled_from([0, 1, 500, 1001, 5000]))]]
-    how = draw(st.sampled_from(['goodbye', 'goodbye', 'expire', 'flush']))
+    how = draw(st.sampled_from(['goodbye', 'goodbye', 'expire', 'flush', 'refresh+goodbye']))
     if how == 'goodbye':
         ops.append(['resp', [p(0, draw(st.integers(0, 1)))]])
+    elif how == 'refresh+goodbye':
+        # one datagram lists the cached pointer with its full TTL and then with TTL 0 (or the other way round): whichever way the
+        # cache takes it, the callbacks have to agree with it
+        both = [p(4500, draw(st.integers(0, 1))), p(0, draw(st.integers(0, 1)))]
+        ops.append(['resp', both if draw(st.booleans()) else both[::-1]])
     elif how == 'expire':
         ops.append(['tick', draw(st.sampled_from([1125000, 1126000, 1135001, 4500000, 4510001]))])
     else:
